@@ -18,6 +18,8 @@ def check_C01(rep, known):
 
 def check_C02(rep, known):
     scen_job(rep, 'ScenShoot', 'C02', [r'C02\.', r'build', r'varmap'], known)
+    # degrees 1..5 of both schemes through node-independent special probes
+    scen_job(rep, 'ScenDCs', 'C02s', [r'C02\.'], known, parts=4, replay=('dcs', 'replay'))
 
 
 def check_C04(rep, known):
@@ -81,6 +83,7 @@ def check_C05(rep, known):
     # the direct-collocation scenarios (C02 family) carry integral objectives: collocation quadrature
     scen_job(rep, 'ScenShoot', 'C02', [r'C05\.', r'build', r'varmap'], known)
     life_job(rep, [r'C05\.'], known)
+    scen_job(rep, 'ScenDCs', 'C02s', [r'C05\.'], known, parts=4, replay=('dcs', 'replay'))
 
 
 
